@@ -1,11 +1,11 @@
-(* NEEDS: SelfCal/AutoReplay.vo SelfCal/WeightModel.vo SelfCal/TrlQI.vo *)
+(* NEEDS: SelfCal/AutoReplay.vo SelfCal/WeightModel.vo SelfCal/TrlQI.vo SelfCal/DispatchModel.vo *)
 (* Extraction of the executable self-calibration models (AutoLoop replay kernel, weight-vector
    indexing).  Only ExtrOcamlBasic's directives are in effect. *)
 Require Extraction.
 Require Import ExtrOcamlBasic.
 Require Import List ZArith QArith Qcanon.
 Require Import LV.Base.CField LV.Base.QcI LV.SelfCal.AutoLoop LV.SelfCal.AutoReplay LV.SelfCal.WeightModel.
-Require Import LV.SelfCal.TrlModel LV.SelfCal.TrlQI.
+Require Import LV.SelfCal.TrlModel LV.SelfCal.TrlQI LV.SelfCal.DispatchModel.
 
 (* the weight model over equation numbers: the "weight" of equation number m is m + 1, the
    calloc zero is 0; the correspondence maps the numbers back to measurements *)
@@ -20,4 +20,5 @@ Extraction "models_selfcal.ml"
   replay_run Obs outcome_tag e_best e_mult e_lambda e_converged
   n_calc_weights n_simple_index n_auto_index
   q_trl_solve M2 qi_nrm qi_sub
-  dof.
+  dof
+  dispatch.
